@@ -349,7 +349,7 @@ func (ClawbackVestingAccount).LockedCoins
     requires valid: ValidCVA(va)
     requires delegated: cnonneg(va.DelegatedFree) && cnonneg(va.DelegatedVesting)
     // the `if isNeg` safety branch is dead code for accounts satisfying the representation invariant
-    unreachable return2
+    unreachable return: return sdk.Coins{}
     ensures formula: result == cmax(csub(csub(O, UV), D), csub(O, VestedAt(va, t)))
     ensures bounds: cnonneg(result) && clte(result, O)
     use entry EndedBounds(time_unix(va.StartTime), va.VestingPeriods, len(va.VestingPeriods), time_unix(blockTime))
